@@ -27,6 +27,8 @@ RULE = (
     "community replies with another community / version number => refused (any exception). "
     "Seam monitor: (request-id decoded from the datagram sent, response request-id) per "
     "exchange vs outcome. Distinct by (op, level, fault, k, clock step pattern)."
+    " One case in four creates the community client for the OTHER version with the same commu"
+    "nity string and switches it by configure()."
 )
 ASSUMPTIONS = [
     "the agent's engine clock is a separate frozen clock, so stepping the client's clock does not touch timeliness (C12)",
